@@ -19,9 +19,15 @@ func NewSurnameLink(surname string) *SurnameLink {
 }
 
 func (c *SurnameLink) WriteHTMLTo(w io.Writer) (int64, error) {
-	firstLetter := rune(c.surname[0])
-	lowerFirstLetter := unicode.ToLower(firstLetter)
-	destination := fmt.Sprintf("%s#%s", PageIndividuals(lowerFirstLetter), c.surname)
+	// This must be the same letter that the individuals with this surname
+	// are listed under, see getIndexLetter. Everything that does not start
+	// with a letter from a to z is on the page for symbols.
+	letter := symbolLetter
+	if first := unicode.ToLower(rune(c.surname[0])); first >= 'a' && first <= 'z' {
+		letter = first
+	}
+
+	destination := fmt.Sprintf("%s#%s", PageIndividuals(letter), c.surname)
 
 	return core.NewLink(core.NewText(c.surname), destination).WriteHTMLTo(w)
 }
